@@ -359,7 +359,7 @@ func VerifGarbageRequest(p string) *Request {
 // VerifDNSNetRule: a network rule for the DNS engine harness: literal pattern of
 // patLen symbolic bytes over {a,b}, symbolic option words / type masks, optional
 // $domain, optional $dnsrewrite, optional $dnstype=A.
-func VerifDNSNetRule(p string, patLen int) *NetworkRule {
+func VerifDNSNetRule(p string, patLen int, withClient bool) *NetworkRule {
 	r := &NetworkRule{RuleText: p, FilterListID: 1}
 	sc := verifString(p+".pat", patLen, "zq")
 	r.pattern = sc
@@ -374,6 +374,15 @@ func VerifDNSNetRule(p string, patLen int) *NetworkRule {
 	r.permittedDNSTypes = verifSymLen([]RRType{1}, p+".npq")
 	if verifBool(p + ".hasRewrite") {
 		r.DNSRewrite = &DNSRewrite{NewCNAME: "c"}
+	}
+	// optional $client: the lower half of 9.9.9.0/24 and the name "a", permitted or excluded
+	if withClient && verifBool(p+".hasClient") {
+		c := &clients{hosts: []string{"a"}, nets: []netip.Prefix{netip.PrefixFrom(netip.AddrFrom4([4]byte{9, 9, 9, 0}), 25)}}
+		if verifBool(p + ".clientExcluded") {
+			r.restrictedClients = c
+		} else {
+			r.permittedClients = c
+		}
 	}
 	verifAssume(verifInvOptions(r))
 	verifAssume(verifRequestTypesOK(r))
